@@ -23,6 +23,11 @@ for d in $src/C*-[mb]*; do
   p=$d/patch.diff; [ -f $d/patch.ported.diff ] && p=$d/patch.ported.diff
   checks=$prop
   [ "$id" = "C06-m2" ] && checks="C06 C16"
+  [ "$id" = "C07-m14" ] && checks="C07 C18"
+  [ "$id" = "C12-m14" ] && checks="C12 C04"
+  [ "$id" = "C12-m15" ] && checks="C12 C04"
+  [ "$id" = "C18-m14" ] && checks="C18 C04"
+  [ "$id" = "C02-m15" ] && checks="C02 C15"
   if [ -n "${SEEDPAR_ENGINE_WIDE:-}" ]; then   # every check served by the engine that serves the change's property
     case $(engine_of $prop) in
       vx-netk) checks="C06 C13 C16 C17 C19";; vx-fsx) checks="C07 C10 C18";;
@@ -85,7 +90,11 @@ sort -t'|' -k1,1V -k2,2 $base/results.txt | while IFS='|' read id c rc clause; d
   echo "| $id | $c $tier | $rc | $clause$note |"
 done
 echo
+if [ "$src" = /verif/seeded ]; then
 echo "exit 1 = the check reported a VIOLATION (detected); exit 0 = not detected; exit 2 = machinery error."
+else
+echo "exit 0 = the check held (no alarm), which is what is expected for every row; exit 1 would be a false alarm; exit 2 a machinery error."
+fi
 } > $out
 rm -rf $base
 grep -c "| 1 |" $out; grep -E "\| (0|2|APPLY-FAILED|BUILD-FAILED) \|" $out
